@@ -75,7 +75,7 @@ def build(tier):
     us = Unit('tlsym', 'C06/timelimit.cpp', ['h_clock_sym'], aliases=SYM_ALIASES)
     uc = Unit('ctl', 'C06/timelimit.cpp', ['h_go', 'h_ponder', 'h_stop', 'h_ponderhit'], aliases=CTL_ALIASES, allow_extern=CTL_EXTERN,
               clang_flags=['-fno-rtti'], extra_roots=CTL_ROOTS)
-    ust = Unit('stop', 'C06/stop.cpp', ['h_stop_time', 'h_stop_nodes', 'h_stop_soft', 'h_install'], aliases=STOP_ALIASES, clang_flags=['-fno-rtti'])
+    ust = Unit('stop', 'C06/stop.cpp', ['h_stop_time', 'h_stop_nodes', 'h_stop_soft', 'h_install', 'h_polling'], aliases=STOP_ALIASES, clang_flags=['-fno-rtti'])
     D_CLOCK = ('computeTimeLimit, clock mode: 1 <= minTimeLimit <= maxTimeLimit <= clock - min(BufferTime, floor(9*clock/10)) for the side to move; hence <= clock - BufferTime when 10*BufferTime <= 9*clock, '
                '<= ceil(clock/10) otherwise, and < clock for clock >= 2; earlyStopPercentage = -1; depth/node limits as given; previous field contents irrelevant; no signed overflow, '
                'no out-of-range double->int conversion')
@@ -116,6 +116,8 @@ def build(tier):
         Ob('O3d-stop-soft', ust, 'h_stop_soft', 'shouldStop, normal search (no need-more-time, early stop enabled, no node limit): true => elapsed >= hard or elapsed+1 > soft*hardFactor (never before min(floor(soft*hardFactor), hard)); elapsed >= soft*hardFactor => true',
            unwind=2, timeout=600, backend='cvc5', functions=F_O3, bounds=B_STOP + '; hard <= 10^8; MaxNPS 0', stubs=S_STOP),
     ]
+    obs += [Ob('O3e-polling', ust, 'h_polling', 'Search::setStrength: the number of nodes between two stop tests is 1000, or maxNPS/100 clamped to [1,1000] when a speed cap is set; strength clamped, cap stored',
+               unwind=2, timeout=300, functions=['Search::setStrength (search.cpp:90-100)'], bounds='all int strength / maxNPS values, all seeds, any previous interval')]
     if thorough:
         # second back ends on the float-heavy queries (differential check of the SAT/SMT layer)
         obs += [Ob('O1a-clock/minisat', u, 'h_clock', D_CLOCK + ' [second back end]', unwind=2, timeout=1800, core=False, tiers=('thorough',), functions=F_CTL, bounds=B_GO, stubs=S_ENV),
